@@ -110,16 +110,18 @@ def CkptGood (fs : FS) (prev : Option (Nat × Nat)) : Prop :=
   | none => fs cb = .absent ∧ fs co = .absent
   | some (v, n) => fs cb = .complete v n ∨ (fs cb = .absent ∧ fs co = .complete v n)
 
-def specOf : Option (Nat × Nat) → Outcome
+/-- what a resume must return from a good state: the checkpoint `prev`, with whatever weights
+its recorded path/count brings back -/
+def specOf (kind : Kind) (cfg : ResumeCfg) (fs : FS) : Option (Nat × Nat) → Outcome
   | none => .fresh
-  | some (v, n) => .loaded v n
+  | some (v, n) => .loaded v n (weightsBack kind cfg fs n).1 (weightsBack kind cfg fs n).2
 
 /-- the resume logic returns what `CkptGood` promises provided the weights the
 candidate pickles refer to can be loaded -/
 def ResumeSpec (cfg : ResumeCfg) : Prop :=
   ∀ (kind : Kind) (top : Nat) (fs : FS) (prev : Option (Nat × Nat)), CkptGood fs prev →
     (∀ p v n, (p = cb ∨ p = co) → fs p = .complete v n → weightsResume kind cfg top fs n = none) →
-    resume kind cfg top fs = specOf prev
+    resume kind cfg top fs = specOf kind cfg fs prev
 
 /-! ### Consequences of `DumpSpec` -/
 
@@ -220,12 +222,25 @@ theorem weightsResume_congr (kind : Kind) (cfg : ResumeCfg) (top : Nat) (fs fs' 
   | std =>
     have h1 := h wb (by simp)
     have h2 := h wo (by simp)
-    simp only [weightsResume, stdWeightsResume, runFallback, loadWeights, FS.has, h1, h2]
+    have h3 := h ⟨.weights, primary n⟩ (by simp)
+    simp only [weightsResume, stdWeightsResume, fallbackContent, loadWeights, FS.has, h1, h2, h3]
     rfl
   | ins =>
     simp only [weightsResume, insWeightsResume]
     rw [countLevels_congr fs fs' top (fun i _ => h _ (by simp)),
         loadAll_congr fs fs' _ (fun i _ => h _ (by simp))]
+
+/-- neither does what comes back -/
+theorem weightsBack_congr (kind : Kind) (cfg : ResumeCfg) (fs fs' : FS) (n : Nat)
+    (h : ∀ p : Path, p.fam ≠ .ckpt → fs' p = fs p) :
+    weightsBack kind cfg fs' n = weightsBack kind cfg fs n := by
+  cases kind with
+  | ins => rfl
+  | std =>
+    have h2 := h wo (by simp)
+    have h3 := h ⟨.weights, primary n⟩ (by simp)
+    simp only [weightsBack, stdWeightsBack, fallbackBack, fallbackContent, FS.has, h2, h3]
+    rfl
 
 theorem le_countLevels (fs : FS) (t n : Nat) (hn : n ≤ t)
     (h : ∀ i, i < n → fs.has ⟨.level i, .base⟩ = true) : n ≤ countLevels fs t := by
@@ -321,10 +336,10 @@ theorem hist_untorn (kind : Kind) (P : Protocol) (hd : DumpSpec P.dump) (hist : 
     | ckpt se v n len cp =>
       cases cp with
       | none =>
-        have h := dump_run_untorn hd se ⟨v, ckptN kind n s.mem, len, .tornPickle⟩ s.fs hb ho
+        have h := dump_run_untorn hd se ⟨v, s.mem, len, .tornPickle⟩ s.fs hb ho
         exact ih _ h.1 h.2
       | some cp =>
-        have h := dump_crash_untorn hd se ⟨v, ckptN kind n s.mem, len, .tornPickle⟩ s.fs cp hb ho
+        have h := dump_crash_untorn hd se ⟨v, s.mem, len, .tornPickle⟩ s.fs cp hb ho
         exact ih _ h.1 h.2
     | train w len e cp =>
       cases cp with
